@@ -123,9 +123,14 @@ def one_call(res, g, phi, tap, ctx, mg=None):
     snap = snapshot(mg)
     N = mg.number_of_nodes()
     edges = list(mg.edges())
+    phi_arg = phi
+    if len(edges) % 5 == 2:
+        import numpy as np
+        phi_arg = np.float64(phi)         # an element of a phi grid built with numpy
+        res.count("phi_given_as_numpy_float")
     with installed(tap, "bond"):
         n0 = len(tap.log)
-        S = sut("bond_percolate", gcmpy.bond_percolate, mg, phi)
+        S = sut("bond_percolate", gcmpy.bond_percolate, mg, phi_arg)
     res.count("calls")
     draws = [e[2] for e in tap.log[n0:] if e[0] == "random"]
     res.count("input_events", len(mg.events))
